@@ -81,11 +81,11 @@ let do_pos (p : Position.pos) : string =
   match Gen.gen_legal p, Gen.gen_tactical p with
   | Base.Panic w, _ | _, Base.Panic w -> panic_text w
   | Base.Ok legal, Base.Ok tact ->
-    Printf.sprintf "OK|%s|%s|%s|%d|%d|%d|%s|%d|%d"
+    Printf.sprintf "OK|%s|%s|%s|%d|%d|%d|%s|%d|%d|%d"
       (snapshot p) (sorted_join (Stdlib.List.map rmv_text legal)) (sorted_join (Stdlib.List.map rmv_text tact))
       (int_of_z (Count.count_moves p)) (int_of_z (Gen.count_tactical p))
       (if Attack.in_check p then 1 else 0) (attack_map p)
-      (int_of_z (Eval.evaluate p Z0)) (int_of_z (Eval.psq_score p))
+      (int_of_z (Eval.evaluate p Z0)) (int_of_z (Eval.psq_score p)) (if WF.wf_legal p then 1 else 0)
 
 let parse_mv (s : string) : Make.move option = Uci.parse_move (coq_string s)
 
@@ -95,15 +95,17 @@ let do_game (start : string) (moves : string list) : string =
   | Stdlib.Ok p0 ->
     let b = Buffer.create 4096 in
     Buffer.add_string b "OK|"; Buffer.add_string b (snapshot p0);
+    let allwf = ref (WF.wf_legal p0) in
     let rec go p = function
-      | [] -> Buffer.contents b
+      | [] -> Buffer.contents b ^ (if !allwf then "" else "|NOTWF")
       | m :: rest ->
         (match parse_mv m with
          | None -> Buffer.contents b ^ "|BADMOVE"
          | Some mv ->
            (match Uci.apply_uci p mv with
             | Base.Panic w -> Buffer.contents b ^ "|" ^ panic_text w
-            | Base.Ok p' -> Buffer.add_char b '|'; Buffer.add_string b (snapshot p'); go p' rest)) in
+            | Base.Ok p' -> if not (WF.wf_legal p') then allwf := false;
+                            Buffer.add_char b '|'; Buffer.add_string b (snapshot p'); go p' rest)) in
     go p0 moves
 
 let perft_rows (rows : (Make.move * coq_Z) list) (total : coq_Z) =
@@ -168,11 +170,12 @@ let spec_attack_map (p : Position.pos) : string =
 
 (* answers computed from the specification alone (on the abstraction of the loaded position) *)
 let do_spec (p : Position.pos) : string =
-  Printf.sprintf "OK|%s|%s|%d|%s|%d|%d"
+  Printf.sprintf "OK|%s|%s|%d|%s|%d|%d|%d"
     (sorted_join (Stdlib.List.map code_text (Abs.spec_legal_codes p)))
     (sorted_join (Stdlib.List.map code_text (Abs.spec_tactical_codes p)))
     (if Abs.spec_in_check p then 1 else 0) (spec_attack_map p)
     (if Abs.spec_legal_position p then 1 else 0) (if Abs.make_refines p then 1 else 0)
+    (if MakeSpec.make_spec_check p then 1 else 0)
 
 let handle (line : string) : string =
   match Stdlib.String.split_on_char '\t' line with
